@@ -169,6 +169,8 @@ def make_workload(seed, i):
         ar.shuffle(chosen)
         if chosen:
             desc["args"] = ["generate"] + [x for kv in chosen for x in ("--config", kv)]
+    if "args" not in desc and ar.fork("validate").chance(0.1):
+        desc["args"] = ["validate"]          # the other command that prints diagnostics about a package
     return desc, files, "/w/pkg"
 
 
